@@ -252,6 +252,24 @@ impl Run {
             e.1 = Some(v);
         }
     }
+    /// One line per violation signature (development scans).
+    pub fn brief(&self) -> Vec<String> {
+        let mut out = vec![];
+        for (sig, b) in self.viols.lock().unwrap().iter() {
+            let mut kept = b.kept.clone();
+            kept.sort_by_key(|x| x.weight());
+            if let Some(v) = kept.first() {
+                out.push(format!("[{}] {sig}: {:?} {} -> {:?} {}", b.count, v.tcs, v.cfg.name(), v.out, v.detail));
+            }
+        }
+        for (id, (n, _)) in self.kf_hits.lock().unwrap().iter() {
+            out.push(format!("known {id}: {n}"));
+        }
+        for m in self.machinery.lock().unwrap().iter() {
+            out.push(format!("MACHINERY {m}"));
+        }
+        out
+    }
     pub fn violation_count(&self) -> u64 {
         self.viols.lock().unwrap().values().map(|b| b.count).sum()
     }
